@@ -1284,7 +1284,15 @@ func checkConvCell(k string, cell byte, o, r tengo.Object, impl string, withD bo
 		}
 	case cConv:
 		want, fallbackOK := expectedConv(k, o)
-		if fallbackOK && isFallback {
+		if fallbackOK {
+			// the documented Go function rejects this text: the builtin returns undefined or the supplied default
+			if !isFallback {
+				exp := "undefined"
+				if withD {
+					exp = "the supplied default"
+				}
+				viol("conversion-of-unconvertible-text-returns-a-value", in, impl, exp, "docs/runtime-types.md cell "+o.TypeName()+" -> "+k+": strconv.ParseInt(s, 10, 64) / ParseFloat(s, 64) fails on this text")
+			}
 			return
 		}
 		if r == nil || r.TypeName() != convType[k] {
